@@ -577,9 +577,10 @@ public:
    /// Stores permutation of row indices in \p perm.
    void remove(const int nums[], int n, int* perm)
    {
-      SVSetBase<R>::remove(nums, n, perm);
-
+      // number of elements before the removal: perm[] has one entry for each of them
       int j = num();
+
+      SVSetBase<R>::remove(nums, n, perm);
 
       for(int i = 0; i < j; ++i)
       {
